@@ -430,6 +430,26 @@ theorem writebackRoot_eq {d : Disk} (g : Geo d) {idx : Nat} (hi : idx < (dirOfBy
   simp only [M_bind_apply, M.get, M.lift, hchs, imgWriteSector, hin, if_true, M.setRaw]
   rfl
 
+theorem writebackRoot_any {d : Disk} (g : Geo d) {idx : Nat} {dir : Directory} (hi : idx < dir.length)
+    (hw : idx / 16 * 16 + 16 ≤ dir.length) (hs : idx / 16 < d.bpb.rootDirSecs) (e' : Bytes) :
+    writebackDirectoryEntry none idx dir e' d = (.ok (), { d with raw := { d.raw with units :=
+      (d.raw.units.setIfInBounds (d.bpb.rootBeg + idx / 16)
+        (quantize (((dir.set idx e').drop (idx / 16 * 16)).take 16).flatten d.raw.unitLen)) } }) := by
+  obtain ⟨hin1, hin⟩ := rootSec_inImg g hs
+  have hset : dirSet dir idx e' = .ok (dir.set idx e') := by simp [dirSet, hi]
+  have hraw : rawEntries (dir.set idx e') ((d.bpb.rootBeg + idx / 16 - d.bpb.rootBeg) * 16) 16 =
+      .ok (((dir.set idx e').drop (idx / 16 * 16)).take 16).flatten := by
+    have e : d.bpb.rootBeg + idx / 16 - d.bpb.rootBeg = idx / 16 := by omega
+    simp [rawEntries, e, hw]
+  have hchs : getChs d (d.bpb.rootBeg + idx / 16) = .ok (d.bpb.rootBeg + idx / 16) := getChs_ok g hin1
+  have hbps : d.bpb.secSize / entrySize = 16 := by simp [Bpb.secSize, g.bps, entrySize]
+  have h16 : ¬ (16 = 0) := by omega
+  unfold writebackDirectoryEntry
+  simp only [M_bind_apply, M.get, M.lift, hset, hbps]
+  simp only [h16, if_false, M_bind_apply, M.lift, hraw]
+  unfold writeSector
+  simp only [M_bind_apply, M.get, M.lift, hchs, imgWriteSector, hin, if_true, M.setRaw]
+
 /-- sector `k` of the root directory is the `k`-th group of 16 entries -/
 theorem rootSec_eq_group {d : Disk} (g : Geo d) {k : Nat} (hk : k < d.bpb.rootDirSecs) :
     d.raw.units.getD (d.bpb.rootBeg + k) [] = (((dirOfBytes (rootBuf d)).drop (16 * k)).take 16).flatten := by
